@@ -1,4 +1,4 @@
-import Pixman.Lemmas.Blend
+import Pixman.Lemmas.BlendInt
 import Pixman.Gen.Combine32Macros
 /-! C01 — compositing equations (narrow / 8-bit pipeline): property theorems.
 
@@ -501,9 +501,9 @@ theorem combineAddCa_spec : chan c (combineAddCa s m d) = componentAlpha .add c 
 end ca
 
 /-! ## 3b'. integer PDF blend modes: Multiply (exact integer rule).
-The seven `PDF_SEPARABLE_BLEND_MODE` combiners (screen, overlay, darken, lighten, hard-light,
-difference, exclusion) are modelled (`pdfSeparableU/Ca`) and held by the correspondence and the
-real-valued oracle only: no theorem yet. -/
+Multiply is the one blend mode with a hand-written combiner: three separately rounded products,
+saturating sum (`Spec.multiplyChannel`); `multiply_channel_nearest` bounds it against the exact
+numerator.  The seven `PDF_SEPARABLE_BLEND_MODE` combiners follow in 3b''. -/
 
 section multiply
 
@@ -531,24 +531,76 @@ theorem combineMultiplyCa_spec (s m d : Nat) (hs : s < 4294967296) (hm : m < 429
     chan_mulUn8x4AddMulUn8 c d _ s' _ (by omega), chan_not32 c m' l2]
   simp only [sat]; omega
 
+/-- Multiply on premultiplied operands: the exact numerator `(255−da)·s + (255−sa)·d + d·s` is at
+most 255² and the three separately rounded products of the 8-bit rule stay within `3·127 = 381`
+of it, i.e. the channel is within 381/255 ≈ 1.494 steps of `255·(PDF value)`. -/
+theorem multiply_channel_nearest (d da s sa : Nat) (hda : da ≤ 255) (hsa : sa ≤ 255)
+    (hd : d ≤ da) (hs : s ≤ sa) :
+    PdfInt.numMultiply d da s sa ≤ 65025 ∧
+    255 * multiplyChannel s sa d da ≤ PdfInt.numMultiply d da s sa + 381 ∧
+    PdfInt.numMultiply d da s sa ≤ 255 * multiplyChannel s sa d da + 381 := by
+  have r1 := rnd_nearest s (255 - da)
+  have r2 := rnd_nearest d (255 - sa)
+  have r3 := rnd_nearest d s
+  have hN : PdfInt.numMultiply d da s sa ≤ 65025 := by
+    unfold PdfInt.numMultiply
+    have a1 : (255 - da) * s ≤ (255 - da) * sa := Nat.mul_le_mul_left _ hs
+    have a2 : (255 - sa) * d ≤ (255 - sa) * da := Nat.mul_le_mul_left _ hd
+    have a3 : d * s ≤ da * sa := Nat.mul_le_mul hd hs
+    have e1 : (255 - da) * sa = 255 * sa - da * sa := Nat.sub_mul 255 da sa
+    have e2 : (255 - sa) * da = 255 * da - sa * da := Nat.sub_mul 255 sa da
+    have e3 : sa * da = da * sa := Nat.mul_comm sa da
+    have b1 : da * sa ≤ 255 * sa := Nat.mul_le_mul_right sa hda
+    have b2 : da * sa ≤ da * 255 := Nat.mul_le_mul_left da hsa
+    -- (255 − da)·(255 − sa) ≥ 0
+    have e4 : (255 - da) * (255 - sa) = 255 * (255 - sa) - da * (255 - sa) := Nat.sub_mul 255 da _
+    have e5 : da * (255 - sa) = da * 255 - da * sa := Nat.mul_sub da 255 sa
+    have b3 : da * (255 - sa) ≤ 255 * (255 - sa) := Nat.mul_le_mul_right _ hda
+    omega
+  refine ⟨hN, ?_⟩
+  unfold multiplyChannel
+  unfold PdfInt.numMultiply at hN ⊢
+  rw [Nat.mul_comm (255 - da) s, Nat.mul_comm (255 - sa) d] at hN ⊢
+  generalize s * (255 - da) = p1 at *
+  generalize d * (255 - sa) = p2 at *
+  generalize d * s = p3 at *
+  omega
+/-- both ends of the Multiply bound are attained -/
+theorem multiply_channel_nearest_sharp :
+    255 * multiplyChannel 121 134 98 157 = PdfInt.numMultiply 98 157 121 134 + 381 ∧
+    PdfInt.numMultiply 1 254 127 128 = 255 * multiplyChannel 127 128 1 254 + 381 := by decide
+
 end multiply
 
-/-! ## 3b''. the seven `PDF_SEPARABLE_BLEND_MODE` combiners: structure theorem.
-For ANY blend function: every channel of the result is `DIV_ONE_UN8 (CLAMP (numerator))` of that
-channel's own numerator `isa·d + ida·s + blend (d, da, s, sa)` (alpha: `da·255 + sa·255 − sa·da`),
-computed from the masked source — no channel influences another, the packing loses nothing.
-PARTIAL with respect to C01: that the numerator equals the real-valued PDF equation for
-premultiplied inputs is not proved here (the harness oracle checks it within half a step). -/
+/-! ## 3b''. the seven `PDF_SEPARABLE_BLEND_MODE` combiners (screen, overlay, darken, lighten,
+hard-light, difference, exclusion), unified and component alpha.
+
+* structure (`pdfSeparableU_pack`, `pdfSeparableCa_pack`), for ANY blend function: the result word
+  is the packing of four independent `DIV_ONE_UN8 (CLAMP (numerator))` values, the numerators
+  computed from the masked source — no channel influences another, the packing loses nothing;
+* exactness (`pdfSeparableU_exact`, `pdfSeparableCa_exact`), for ALL 32-bit words `s`, `m`, `d`
+  (premultiplied or not — no hypothesis on the colours): every colour channel is
+  `rndDiv255 (min 255² num)` of the exact integer numerator `Spec.PdfInt.num`
+  `= (255−sa)·d + (255−da)·s + 255²·αs·αb·B(cb/αb, cs/αs)`, which is never negative and never wraps
+  the `uint32_t` (`num_nonneg`, `num_lt`); the alpha channel is the union
+  `da + sa − da·sa/255` rounded to nearest (`Spec.PdfInt.alpha`; never clamps);
+* premultiplied operands (`s ≤ sa`, `d ≤ da`): the numerator is at most `255²` — the clamp is
+  inactive — and the channel is `num/255` rounded to nearest: `|255·result − num| ≤ 127`
+  (`pdf_channel_nearest`; sharp: `pdf_channel_nearest_sharp`).
+That `num/255²` is the rational PDF equation of `Spec.PdfBlend` is `Props/C01Pdf.lean`. -/
 
 section pdf
+open Pixman.Spec.PdfInt (Mode)
 
-theorem pdfSeparableU_channels_partial (blend : Int → Int → Int → Int → Int) (s d : Nat)
+/-- `combine_<mode>_u` for any blend function: four independent finished numerators, packed -/
+theorem pdfSeparableU_pack (blend : Int → Int → Int → Int → Int) (s d : Nat)
     (mask : Option Nat) (hs : s < 4294967296) (hd : d < 4294967296)
-    (hm : ∀ m, mask = some m → m < 4294967296) (c : Chan) :
-    chan c (pdfSeparableU blend s mask d) =
-      pdfFinish (match c with
-        | .a => pdfNumA (chan .a d) (maskedU .a s mask)
-        | c => pdfNumC blend (chan c d) (chan .a d) (maskedU c s mask) (maskedU .a s mask)) := by
+    (hm : ∀ m, mask = some m → m < 4294967296) :
+    pdfSeparableU blend s mask d =
+      pack4 (pdfFinish (pdfNumA (chan .a d) (maskedU .a s mask)))
+        (pdfFinish (pdfNumC blend (chan .r d) (chan .a d) (maskedU .r s mask) (maskedU .a s mask)))
+        (pdfFinish (pdfNumC blend (chan .g d) (chan .a d) (maskedU .g s mask) (maskedU .a s mask)))
+        (pdfFinish (pdfNumC blend (chan .b d) (chan .a d) (maskedU .b s mask) (maskedU .a s mask))) := by
   have hcm := lt_combineMask s mask hs hm
   unfold pdfSeparableU
   simp only []
@@ -560,17 +612,17 @@ theorem pdfSeparableU_channels_partial (blend : Int → Int → Int → Int → 
     two_products_lt _ _ _ _ (by omega) (chan_le .g d) (by omega) (maskedU_le .g s mask),
     two_products_lt _ _ _ _ (by omega) (chan_le .b d) (by omega) (maskedU_le .b s mask)]
   have hb : ∀ v, divOneUn8 (clampU v 0 (255 * 255)) ≤ 255 := pdfFinish_le
-  rw [pack_shifts _ _ _ _ (hb _) (hb _) (hb _) (hb _),
-    chan_pack4 c _ _ _ _ (hb _) (hb _) (hb _) (hb _)]
-  cases c <;> rfl
+  rw [pack_shifts _ _ _ _ (hb _) (hb _) (hb _) (hb _)]
+  rfl
 
-theorem pdfSeparableCa_channels_partial (blend : Int → Int → Int → Int → Int) (s m d : Nat)
-    (hs : s < 4294967296) (hm : m < 4294967296) (hd : d < 4294967296) (c : Chan) :
-    chan c (pdfSeparableCa blend s m d) =
-      pdfFinish (match c with
-        | .a => pdfNumA (chan .a d) (rnd (chan .a s) (chan .a m))
-        | c => pdfNumC blend (chan c d) (chan .a d) (rnd (chan c s) (chan c m))
-                 (rnd (chan c m) (chan .a s))) := by
+/-- `combine_<mode>_ca` for any blend function -/
+theorem pdfSeparableCa_pack (blend : Int → Int → Int → Int → Int) (s m d : Nat)
+    (hs : s < 4294967296) (hm : m < 4294967296) (hd : d < 4294967296) :
+    pdfSeparableCa blend s m d =
+      pack4 (pdfFinish (pdfNumA (chan .a d) (rnd (chan .a s) (chan .a m))))
+        (pdfFinish (pdfNumC blend (chan .r d) (chan .a d) (rnd (chan .r s) (chan .r m)) (rnd (chan .r m) (chan .a s))))
+        (pdfFinish (pdfNumC blend (chan .g d) (chan .a d) (rnd (chan .g s) (chan .g m)) (rnd (chan .g m) (chan .a s))))
+        (pdfFinish (pdfNumC blend (chan .b d) (chan .a d) (rnd (chan .b s) (chan .b m)) (rnd (chan .b m) (chan .a s)))) := by
   have H := combineMaskCa_spec s m hs hm
   unfold pdfSeparableCa
   simp only []
@@ -588,9 +640,98 @@ theorem pdfSeparableCa_channels_partial (blend : Int → Int → Int → Int →
     two_products_lt _ _ _ _ (by omega) (chan_le .g d) (by omega) (hr .g),
     two_products_lt _ _ _ _ (by omega) (chan_le .b d) (by omega) (hr .b)]
   have hb : ∀ v, divOneUn8 (clampU v 0 (255 * 255)) ≤ 255 := pdfFinish_le
-  rw [pack_shifts _ _ _ _ (hb _) (hb _) (hb _) (hb _),
-    chan_pack4 c _ _ _ _ (hb _) (hb _) (hb _) (hb _)]
-  cases c <;> rfl
+  rw [pack_shifts _ _ _ _ (hb _) (hb _) (hb _) (hb _)]
+  rfl
+
+/-- the exact numerator is never negative — for ALL 8-bit operands, premultiplied or not (so the
+`int32_t` blend term added to the `uint32_t` accumulator never wraps below zero) -/
+theorem num_nonneg (m : Mode) (d da s sa : Nat) (hd : d ≤ 255) (hda : da ≤ 255) (hs : s ≤ 255)
+    (hsa : sa ≤ 255) : 0 ≤ PdfInt.num m d da s sa := Lemmas.num_nonneg m d da s sa hd hda hs hsa
+example : PdfInt.num .hardLight 255 0 255 0 = 0 ∧ PdfInt.num .overlay 0 255 0 255 = 0 := by decide
+
+/-- … and stays far below 2³² -/
+theorem num_lt (m : Mode) (d da s sa : Nat) (hd : d ≤ 255) (hda : da ≤ 255) (hs : s ≤ 255)
+    (hsa : sa ≤ 255) : PdfInt.num m d da s sa ≤ 5 * 65025 := Lemmas.num_le m d da s sa hd hda hs hsa
+
+/-- the `uint32_t` numerator of the code (model's `blend_<mode>`, `uint32_t`/`int32_t` conversions
+included) is the exact integer numerator, for ALL 8-bit operands -/
+theorem pdfNumC_exact (m : Mode) (d da s sa : Nat) (hd : d ≤ 255) (hda : da ≤ 255) (hs : s ≤ 255)
+    (hsa : sa ≤ 255) : ((pdfNumC (modeBlend m) d da s sa : Nat) : Int) = PdfInt.num m d da s sa := by
+  rw [pdfNumC_eq m d da s sa hd hda hs hsa]
+  exact Int.toNat_of_nonneg (num_nonneg m d da s sa hd hda hs hsa)
+example : pdfNumC (modeBlend .overlay) 0x40 0x80 0x20 0x60 = 18336 ∧
+    PdfInt.num .overlay 0x40 0x80 0x20 0x60 = 18336 := by decide
+
+/-- **unified mask, every channel, ALL inputs.** -/
+theorem pdfSeparableU_exact (m : Mode) (s d : Nat) (mask : Option Nat) (hs : s < 4294967296)
+    (hd : d < 4294967296) (hm : ∀ mk, mask = some mk → mk < 4294967296) (c : Chan) :
+    chan c (pdfSeparableU (modeBlend m) s mask d) = PdfInt.unified m c s mask d := by
+  have hsa := maskedU_le .a s mask
+  have hda := chan_le .a d
+  rw [pdfSeparableU_pack _ s d mask hs hd hm,
+    chan_pack4 c _ _ _ _ (pdfFinish_le _) (pdfFinish_le _) (pdfFinish_le _) (pdfFinish_le _)]
+  cases c <;> simp only [PdfInt.unified]
+  · exact pdfFinish_alpha _ _ hda hsa
+  · exact pdfFinish_channel m _ _ _ _ (chan_le .r d) hda (maskedU_le .r s mask) hsa
+  · exact pdfFinish_channel m _ _ _ _ (chan_le .g d) hda (maskedU_le .g s mask) hsa
+  · exact pdfFinish_channel m _ _ _ _ (chan_le .b d) hda (maskedU_le .b s mask) hsa
+example : pdfSeparableU (modeBlend .screen) 0x80402010 (some 0x7f000000) 0xc0102030 = 3492687414 ∧
+    PdfInt.unifiedPixel .screen 0x80402010 (some 0x7f000000) 0xc0102030 = 3492687414 := by decide
+
+/-- **component-alpha mask, every channel, ALL inputs.** -/
+theorem pdfSeparableCa_exact (m : Mode) (s mk d : Nat) (hs : s < 4294967296)
+    (hm : mk < 4294967296) (hd : d < 4294967296) (c : Chan) :
+    chan c (pdfSeparableCa (modeBlend m) s mk d) = PdfInt.componentAlpha m c s mk d := by
+  have hda := chan_le .a d
+  have hr := fun c => rnd_le _ _ (chan_le c s) (chan_le c mk)
+  have hr' := fun c => rnd_le _ _ (chan_le c mk) (chan_le .a s)
+  rw [pdfSeparableCa_pack _ s mk d hs hm hd,
+    chan_pack4 c _ _ _ _ (pdfFinish_le _) (pdfFinish_le _) (pdfFinish_le _) (pdfFinish_le _)]
+  cases c <;> simp only [PdfInt.componentAlpha]
+  · exact pdfFinish_alpha _ _ hda (hr .a)
+  · exact pdfFinish_channel m _ _ _ _ (chan_le .r d) hda (hr .r) (hr' .r)
+  · exact pdfFinish_channel m _ _ _ _ (chan_le .g d) hda (hr .g) (hr' .g)
+  · exact pdfFinish_channel m _ _ _ _ (chan_le .b d) hda (hr .b) (hr' .b)
+example : pdfSeparableCa (modeBlend .hardLight) 0x80402010 0xff80407f 0xc0102030 = 3759677481 ∧
+    PdfInt.componentAlphaPixel .hardLight 0x80402010 0xff80407f 0xc0102030 = 3759677481 := by decide
+
+/-- premultiplied operands: the numerator is at most the alpha numerator `≤ 255²`: `CLAMP` is inactive -/
+theorem pdf_num_premult (m : Mode) (d da s sa : Nat) (hda : da ≤ 255) (hsa : sa ≤ 255)
+    (hd : d ≤ da) (hs : s ≤ sa) :
+    PdfInt.num m d da s sa ≤ PdfInt.numAlpha da sa ∧ PdfInt.numAlpha da sa ≤ 65025 :=
+  num_le_premult m d da s sa hda hsa hd hs
+
+/-- premultiplied operands: the channel is the exact numerator divided by 255, rounded to nearest:
+`|255·result − num| ≤ 127`, i.e. the result is within 127/255 < ½ step of `255·(PDF value)` -/
+theorem pdf_channel_nearest (m : Mode) (d da s sa : Nat) (hda : da ≤ 255) (hsa : sa ≤ 255)
+    (hd : d ≤ da) (hs : s ≤ sa) :
+    255 * (PdfInt.channel m d da s sa : Int) ≤ PdfInt.num m d da s sa + 127 ∧
+    PdfInt.num m d da s sa ≤ 255 * (PdfInt.channel m d da s sa : Int) + 127 := by
+  have h0 := num_nonneg m d da s sa (by omega) hda (by omega) hsa
+  have h1 := pdf_num_premult m d da s sa hda hsa hd hs
+  unfold PdfInt.channel
+  have e : min 65025 (PdfInt.num m d da s sa).toNat = (PdfInt.num m d da s sa).toNat := by omega
+  rw [e]
+  have := rndDiv255_nearest (PdfInt.num m d da s sa).toNat
+  omega
+/-- both ends of the bound are attained -/
+theorem pdf_channel_nearest_sharp :
+    (PdfInt.num .screen 1 255 128 255 = 255 * (PdfInt.channel .screen 1 255 128 255 : Int) + 127) ∧
+    (255 * (PdfInt.channel .screen 1 255 127 255 : Int) = PdfInt.num .screen 1 255 127 255 + 127) := by
+  decide
+
+/-- without premultiplication the clamp can be active (then the channel is 255) -/
+example : PdfInt.num .lighten 255 0 255 0 = 130050 ∧ PdfInt.channel .lighten 255 0 255 0 = 255 := by decide
+
+/-- the alpha channel is `255²·(αb + αs − αs·αb)/255` to nearest and never clamps -/
+theorem pdf_alpha_nearest (da sa : Nat) (hda : da ≤ 255) (hsa : sa ≤ 255) :
+    ((PdfInt.numAlpha da sa : Nat) : Int) = 255 * (da : Int) + 255 * sa - sa * da ∧
+    PdfInt.numAlpha da sa ≤ 65025 ∧
+    255 * PdfInt.alpha da sa ≤ PdfInt.numAlpha da sa + 127 ∧
+    PdfInt.numAlpha da sa ≤ 255 * PdfInt.alpha da sa + 127 := by
+  obtain ⟨a, b⟩ := numAlpha_cast da sa hda hsa
+  exact ⟨a, b, rndDiv255_nearest _⟩
+example : PdfInt.alpha 0x80 0x80 = 192 := by decide
 
 /-- a numerator that is a natural number below 2^32: clamp, then `x/255` to nearest -/
 theorem pdfFinish_nat (N : Nat) (h : N < 4294967296) :
@@ -816,6 +957,55 @@ theorem componentAlpha_correct (op : Op) (s m d : Nat) (hs : s < 4294967296)
 
 example : componentAlphaPixel .atop 0x80402010 0xff00807f 0x7f102030 = 2131763240 ∧
     combineAtopCa 0x80402010 0xff00807f 0x7f102030 = 2131763240 := by decide
+
+/-! ## 3d. whole pixels, the seven separable PDF blend modes through the dispatch tables -/
+
+section pdfPixels
+open Pixman.Spec.PdfInt (Mode)
+
+/-- **C01, separable PDF blend modes, unified alpha.**  The function installed in
+`combine_32[op]` for each of the seven modes maps every 32-bit `s`, optional mask and `d` (no
+premultiplication assumed) to exactly the integer Spec pixel `Spec.PdfInt.unifiedPixel`. -/
+theorem pdf_unified_correct (m : Mode) (s d : Nat) (mask : Option Nat) (hs : s < 4294967296)
+    (hd : d < 4294967296) (hm : ∀ mk, mask = some mk → mk < 4294967296) :
+    ∃ f, combineU? m.code = some f ∧ f s mask d = PdfInt.unifiedPixel m s mask d := by
+  have hle : ∀ c, PdfInt.unified m c s mask d ≤ 255 := by
+    intro c
+    cases c <;> simp only [PdfInt.unified]
+    · exact alpha_le255 _ _ (chan_le .a d) (maskedU_le .a s mask)
+    all_goals exact channel_le255 _ _ _ _ _
+  refine ⟨pdfSeparableU (modeBlend m), by cases m <;> rfl, ?_⟩
+  apply eq_of_chan_eq _ _ _ (ofChannels_lt _ hle)
+  · intro c
+    rw [pdfSeparableU_exact m s d mask hs hd hm c]
+    exact (chan_ofChannels (fun c => PdfInt.unified m c s mask d) hle c).symm
+  · rw [pdfSeparableU_pack _ s d mask hs hd hm]
+    exact pack4_lt _ _ _ _ (pdfFinish_le _) (pdfFinish_le _) (pdfFinish_le _) (pdfFinish_le _)
+example : ∃ f, combineU? 0x32 = some f ∧
+    f 0x80402010 none 0xc0102030 = PdfInt.unifiedPixel .overlay 0x80402010 none 0xc0102030 :=
+  pdf_unified_correct .overlay _ _ _ (by decide) (by decide) (by intro m h; cases h)
+
+/-- **C01, separable PDF blend modes, component alpha.** -/
+theorem pdf_componentAlpha_correct (m : Mode) (s mk d : Nat) (hs : s < 4294967296)
+    (hm : mk < 4294967296) (hd : d < 4294967296) :
+    ∃ f, combineCa? m.code = some f ∧ f s mk d = PdfInt.componentAlphaPixel m s mk d := by
+  have hle : ∀ c, PdfInt.componentAlpha m c s mk d ≤ 255 := by
+    intro c
+    cases c <;> simp only [PdfInt.componentAlpha]
+    · exact alpha_le255 _ _ (chan_le .a d) (rnd_le _ _ (chan_le .a s) (chan_le .a mk))
+    all_goals exact channel_le255 _ _ _ _ _
+  refine ⟨pdfSeparableCa (modeBlend m), by cases m <;> rfl, ?_⟩
+  apply eq_of_chan_eq _ _ _ (ofChannels_lt _ hle)
+  · intro c
+    rw [pdfSeparableCa_exact m s mk d hs hm hd c]
+    exact (chan_ofChannels (fun c => PdfInt.componentAlpha m c s mk d) hle c).symm
+  · rw [pdfSeparableCa_pack _ s mk d hs hm hd]
+    exact pack4_lt _ _ _ _ (pdfFinish_le _) (pdfFinish_le _) (pdfFinish_le _) (pdfFinish_le _)
+example : ∃ f, combineCa? 0x39 = some f ∧
+    f 0x80402010 0xff00807f 0xc0102030 = PdfInt.componentAlphaPixel .difference 0x80402010 0xff00807f 0xc0102030 :=
+  pdf_componentAlpha_correct .difference _ _ _ (by decide) (by decide) (by decide)
+
+end pdfPixels
 
 /-! ## 4. bridges: regenerated macro bodies = model
 
